@@ -180,7 +180,38 @@ func heal(r *sim.Rng, n *bftsim.Net, correct map[int]bool, byzIdx int, maxRounds
 	// optimistic advance PhaseHas23Maj is never called): their offset - up to one round length at round r0 - is only absorbed once
 	// the phase windows, which grow as (2 round + 1), exceed it: about ten times r0 rounds later. The bound below allows for that.
 	maxRounds = 11*(r0+1) + maxRounds
+	// Replicas that the prefix left in DIFFERENT rounds carry a time debt: the one in the lowest round needs the whole length of
+	// the rounds in between to get where the most advanced one already is, while that one moves on; since every round is longer
+	// than the one before, the distance in TIME stays what it was and is only absorbed when a single phase is longer than it. With
+	// the implementation's own wait times (phase p of round R lasts base(p)*(2R+1)) that is the first round R* whose shortest
+	// phase outlasts the debt - quadratic in the round spread. The bound is derived from that, not guessed.
+	rmin := r0
+	for _, sr := range res.StartRounds {
+		if sr < rmin {
+			rmin = sr
+		}
+	}
+	var debt int64 = 3000
+	for rr := rmin; rr < r0; rr++ {
+		debt += roundLeft(bft.Election, rr)
+	}
+	if rmin < r0 {
+		minPhase := phaseMS[bft.Election]
+		for _, v := range phaseMS {
+			if v < minPhase {
+				minPhase = v
+			}
+		}
+		rstar := r0
+		for minPhase*int64(2*rstar+1) < debt {
+			rstar++
+		}
+		if extra := rstar - r0 + 12; extra > maxRounds {
+			maxRounds = extra
+		}
+	}
 	res.Bound = maxRounds
+	wallCap := healWallCap + time.Duration(maxRounds)*time.Second/2
 	budget := int64(0)
 	for rr := uint64(0); rr <= r0+maxRounds; rr++ {
 		budget += roundLeft(bft.Election, rr)
@@ -194,7 +225,7 @@ func heal(r *sim.Rng, n *bftsim.Net, correct map[int]bool, byzIdx int, maxRounds
 		}
 		// real-time cap per run (signature checks dominate): a run that is still going after this long has used most of its
 		// round budget already; it is recorded as not committed
-		if time.Since(wallStart) > healWallCap {
+		if time.Since(wallStart) > wallCap {
 			res.Skipped = ""
 			break
 		}
